@@ -462,6 +462,43 @@ func vfAllocOpen() bool {
 	return pbt.Open("C31-alloc") || pbt.Open("C31-alloc-bulk") || pbt.Open("C31-panic")
 }
 
+// vfTameRaw: while the allocation findings are open, raw byte strings must not smuggle in a
+// declared length either: a digit run after '*' or '$' is cut to 2 digits ('*' : <= 99
+// elements) resp. 4 digits ('$' : <= 9999 bytes).
+func vfTameRaw(raw []byte, excluded *int) []byte {
+	if !vfAllocOpen() {
+		return raw
+	}
+	out := make([]byte, 0, len(raw))
+	for i := 0; i < len(raw); i++ {
+		out = append(out, raw[i])
+		if raw[i] != '*' && raw[i] != '$' {
+			continue
+		}
+		keep := 2
+		if raw[i] == '$' {
+			keep = 4
+		}
+		j := i + 1
+		if j < len(raw) && raw[j] == '+' {
+			out = append(out, '+')
+			j++
+		}
+		n := 0
+		for j < len(raw) && raw[j] >= '0' && raw[j] <= '9' {
+			if n < keep {
+				out = append(out, raw[j])
+			} else if n == keep {
+				*excluded++
+			}
+			n++
+			j++
+		}
+		i = j - 1
+	}
+	return out
+}
+
 type vfGenCase31 struct {
 	C        vfCase31
 	Excluded int
@@ -483,7 +520,7 @@ func vfGenParse(t *rapid.T) vfGenCase31 {
 		} else {
 			raw = rapid.SliceOfN(rapid.Byte(), 0, 64).Draw(t, "raw")
 		}
-		g.C.Frames = []vfFrame{{Kind: "raw", Raw: raw}}
+		g.C.Frames = []vfFrame{{Kind: "raw", Raw: vfTameRaw(raw, &g.Excluded)}}
 	case "mut", "mix":
 		if mode == "mix" && rapid.Bool().Draw(t, "lead") {
 			g.C.Frames = append(g.C.Frames, vfGenWellFormed(t, "lead"))
@@ -511,7 +548,7 @@ func vfGenParse(t *rapid.T) vfGenCase31 {
 		}
 		g.C.Frames = append(g.C.Frames, f)
 		if mode == "mix" && rapid.Bool().Draw(t, "tail") {
-			g.C.Frames = append(g.C.Frames, vfFrame{Kind: "raw", Raw: rapid.SliceOfN(rapid.Byte(), 0, 16).Draw(t, "tail-raw")})
+			g.C.Frames = append(g.C.Frames, vfFrame{Kind: "raw", Raw: vfTameRaw(rapid.SliceOfN(rapid.Byte(), 0, 16).Draw(t, "tail-raw"), &g.Excluded)})
 		}
 	}
 	return g
@@ -567,9 +604,10 @@ func vfStaticParse() []vfGenCase31 {
 
 // vfConnCase: bytes written to a live connection of the real server.
 type vfConnCase struct {
-	Pre   [][]byte // ECHO payloads sent as well-formed frames first
-	Junk  []byte   // then arbitrary bytes
-	Close bool     // half-close after writing (otherwise the server must have closed or be waiting)
+	Pre      [][]byte // ECHO payloads sent as well-formed frames first
+	Junk     []byte   // then arbitrary bytes
+	Close    bool     // half-close after writing (otherwise the server must have closed or be waiting)
+	Excluded int      `json:",omitempty"`
 }
 
 var vfSrv struct {
@@ -608,6 +646,7 @@ func vfServer() (string, error) {
 }
 
 func vfRunConn(c vfConnCase, r *pbt.Rec) error {
+	r.Excluded(c.Excluded)
 	path, err := vfServer()
 	if err != nil {
 		return fmt.Errorf("harness: %v", err)
@@ -729,6 +768,7 @@ func vfGenConn(t *rapid.T) vfConnCase {
 		enc := f.encode(-1)
 		c.Junk = enc[:rapid.IntRange(0, len(enc)).Draw(t, "cut")]
 	}
+	c.Junk = vfTameRaw(c.Junk, &c.Excluded)
 	c.Close = rapid.IntRange(0, 3).Draw(t, "close") > 0
 	if !c.Close {
 		// without EOF the server legitimately keeps waiting for the rest of a partial
